@@ -170,7 +170,8 @@ pub fn gen_spec(r: &mut Rng, ty: i32, k: &ShapeKnobs) -> ShapeSpec {
         }
         parts.push(Part { kind, pts });
     }
-    let ctor = r.below(3) as u8;
+    // a quarter of the shapes reach the writer as a clone, or as a buffer refilled by clone_from
+    let ctor = (r.below(3) + if r.chance(1, 4) { 3 * (1 + r.below(2)) } else { 0 }) as u8;
     ShapeSpec { ty, parts, ctor }
 }
 
